@@ -203,10 +203,8 @@ class GroupBy:
             The keys to group by, which can be a single array-like object or a collection of them.
         """
         if isinstance(group_keys, GroupBy):
-            self._group_ikey, self._result_index = (
-                group_keys.group_ikey,
-                group_keys.result_index,
-            )
+            # share the whole factorization state (codes, labels, pointer tables, sort flags, key index)
+            self.__dict__.update(group_keys.__dict__)
             return
 
         group_key_list, group_key_names = convert_data_to_arr_list_and_keys(group_keys)
